@@ -24,7 +24,7 @@ PROP = "C07"
 
 def run(ctx):
     ctx.level = "proof"
-    proved = vlib.prove(ctx, ["Properties_C07.v"], facts=["replay"])
+    proved = vlib.prove(ctx, ["Properties_C07.v", "Properties_C07_pipeline.v"], facts=["replay", "cred", "base64"])
     ctx.log("proofs:", "ok" if proved else "BROKEN: " + getattr(ctx, "broken_obligation", "?"))
     ctx.cov["rule"] = ("proof: Properties_C07.v over ReplayModel (facts from replay.c); correspondence: the same histories "
                        "through /repo's replay.c+hash.c (virtual clock via --wrap=time, purge through the registered timer "
